@@ -174,6 +174,9 @@ func RunAll(pkgs []*Pkg, variants []Variant, each func(fr fileResult)) {
 			r := NewRunner(variants)
 			for p := range jobs {
 				r.SetPkg(p)
+				if p.Fresh || strings.HasPrefix(p.Name, "S2/pkglevel") {
+					r.Refresh()
+				}
 				for _, f := range p.Files {
 					if p.Focus != "" && f.Name != p.Focus {
 						continue
